@@ -212,6 +212,9 @@ pub fn substitute_adversarial(rules: &mut [Value], subst: &[(u16, u16, u16)]) {
                     {"action": s, "value": s, "element_tree": [], "css_selector": null},
                     {"action": "replace", "value": "<html>", "element_tree": [s, "", "html"], "css_selector": "html"},
                     {"action": "prepend_text", "content": s},
+                    {"action": "append_child", "value": s, "inner_value": null, "element_tree": [""], "css_selector": null},
+                    {"action": "prepend_child", "value": s, "inner_value": null, "element_tree": [" ", ""], "css_selector": sel},
+                    {"action": "replace", "value": s, "inner_value": null, "element_tree": ["\t"], "css_selector": null},
                 ]);
             }
             15 => {
@@ -261,8 +264,21 @@ pub fn pipeline(out: &mut Outcome, cfg: &RouterConfig, rules: &[Rule], requests:
     }) else {
         return;
     };
+    // round 4: in half of the cases a second router is derived from the first (as `RuleChangeSet::update_existing_router` does
+    // with a live router) and both are warmed up while the other is alive
+    let derived = if code % 2 == 0 { Some(router.clone()) } else { None };
     if guard!(out, "Router::cache", router.cache(cache)).is_none() {
         return;
+    }
+    if let Some(mut derived) = derived {
+        if guard!(out, "Router::cache (router derived from a live one)", derived.cache(cache)).is_none() {
+            return;
+        }
+        if let Some(raw) = requests.first() {
+            if guard!(out, "Router::match_request (derived router)", derived.match_request(&derived.rebuild_request(raw)).len()).is_none() {
+                return;
+            }
+        }
     }
     for raw in requests {
         let Some(req) = guard!(out, "Router::rebuild_request", router.rebuild_request(raw)) else { return };
